@@ -701,7 +701,6 @@ func (vm *VM) run(depth int) (Addr, bool) {
 			switch {
 			case reflect.Bool <= k && k <= reflect.Float64:
 			case k == reflect.String:
-			case k == reflect.Func:
 			case k == reflect.Interface:
 			default:
 				v2 := reflect.New(v.Type()).Elem()
